@@ -12,7 +12,8 @@ TARGET = WT or "/repo"
 # seed id -> checks (and optional part) to run
 PLAN = {
     "C01-m1": [("C01", None)], "C01-m2": [("C01", None)],
-    "C02-m1": [("C02", None)],  # the cluster part reports it "C02-m2": [("C08", "acl-fault"), ("C02", None)],
+    "C02-m1": [("C02", None)],  # the cluster part reports it
+    "C02-m2": [("C08", "acl-fault"), ("C03", "acl-fault"), ("C02", None)],
     "C03-m1": [("C03", None)], "C03-m2": [("C03", None), ("C07", "p2p")],  # after repair b2e5e9c the publish is refused anyway; the stale attachment is a C07 matter
     "C04-m1": [("C04", None)], "C04-m2": [("C08", "acl-fault"), ("C04", None)],
     "C05-m1": [("C05", None)], "C05-m2": [("C05", "notifications")],
